@@ -726,6 +726,11 @@ def worker(widx, seed, params):
                 acc.violation("js.abi=%s struct %s: %s\n--- struct ---\n%s\n--- value ---\n%s" % (b["abi"], s["name"], msg, ir.render_item(s), json.dumps(b["values"][s["name"]][ci] if ci >= 0 else None)[:800]),
                               {"batch": one}, signature=sig)
 
+    if widx == 0:
+        # dedicated probes for the known findings: a struct holding a single enum, under both ABIs
+        for abi_mode in ("legacy", "spec"):
+            body({"items": [{"kind": "struct", "name": "S0", "attrs": [], "out": False, "lifetimes": [], "fields": [["a", ["enum", "EnA"], []]], "impls": []}],
+                  "abi": abi_mode, "values": {"S0": [{"k": "struct", "ty": "S0", "fields": {"a": {"k": "enum", "ty": "EnA", "variant": "Bb"}}, "asObject": False}]}})
     pbt.explore(batch(), body, params["n"], seed)
     build.rm_workdir(work)
     return acc.result()
